@@ -8,6 +8,7 @@ The tidytcells standardiser `f col cell` is external and arbitrary here.
 -/
 import Prs.Proofs.Cleaning
 import Prs.Generated.Constants
+import Prs.Proofs.Merge
 namespace Prs
 
 /-- total: for ANY object the predicates return a Boolean, never an exception -/
@@ -128,6 +129,53 @@ theorem C18_extra_columns_untouched (mapper : List (String × String)) (standard
   simp
 
 /-! non-vacuity -/
+/-! ### multimerge -/
+section merge
+variable {K V : Type} [DecidableEq K]
+
+/-- default (`how="outer"`): the result has one row for every key that occurs in any table … -/
+theorem C18_multimerge_outer_keys (sfx : Option (List (List Char))) (ts : List (KTable K V))
+    (h : ∀ ss, sfx = some ss → ss ≠ [] → ts.length ≤ ss.length) (k : K) :
+    k ∈ (multimerge true sfx ts).keys ↔ ∃ t ∈ ts, k ∈ t.keys := by
+  unfold multimerge
+  rw [mergeTables_keys, joinKeys_congr true _ ts (suffixed_rows sfx ts h), mem_joinKeys_outer]
+
+/-- … `how="inner"`: for every key that occurs in all tables -/
+theorem C18_multimerge_inner_keys (sfx : Option (List (List Char))) (ts : List (KTable K V))
+    (h : ∀ ss, sfx = some ss → ss ≠ [] → ts.length ≤ ss.length) (k : K) :
+    k ∈ (multimerge false sfx ts).keys ↔ ts ≠ [] ∧ ∀ t ∈ ts, k ∈ t.keys := by
+  unfold multimerge
+  rw [mergeTables_keys, joinKeys_congr false _ ts (suffixed_rows sfx ts h), mem_joinKeys_inner]
+
+/-- each join key has exactly one row, and every row is as wide as the header -/
+theorem C18_multimerge_wf (outer : Bool) (sfx : Option (List (List Char))) (ts : List (KTable K V))
+    (h : ∀ t ∈ suffixed sfx ts, ∀ r ∈ t.rows, r.2.length = t.cols.length) :
+    (multimerge outer sfx ts).WF := mergeTables_wf outer _ h
+
+/-- the header: the tables' columns side by side; with suffixes, table i's columns carry "_" + suffix i -/
+theorem C18_multimerge_columns (outer : Bool) (ts : List (KTable K V)) :
+    (multimerge outer none ts).cols = ts.flatMap (·.cols) ∧
+    ∀ (s : List Char) (ss : List (List Char)),
+      (multimerge outer (some (s :: ss)) ts).cols
+        = (ts.zip (s :: ss)).flatMap fun p => p.1.cols.map fun c => c ++ '_' :: p.2 := by
+  refine ⟨rfl, fun s ss => ?_⟩
+  simp [multimerge, mergeTables, suffixed_some, List.flatMap_map]
+
+/-- the cells: in the row of join key k, the block of table t (the columns after those of the tables
+before it) holds t's own cells for k, or missing values when t has no row for k -/
+theorem C18_multimerge_cells (outer : Bool) (sfx : Option (List (List Char))) (ts : List (KTable K V))
+    (pre post : List (KTable K V)) (t : KTable K V) (hsplit : suffixed sfx ts = pre ++ t :: post)
+    (hwf : ∀ u ∈ suffixed sfx ts, ∀ r ∈ u.rows, r.2.length = u.cols.length)
+    (k : K) (hk : k ∈ (multimerge outer sfx ts).keys) (j : Nat) (hj : j < t.cols.length) :
+    (multimerge outer sfx ts).cell? k ((pre.flatMap (·.cols)).length + j)
+      = some ((t.cell? k j).getD none) := by
+  unfold multimerge at hk ⊢
+  rw [mergeTables_keys] at hk
+  rw [hsplit] at hk hwf ⊢
+  exact mergeTables_cell outer pre post t k j hwf hk hj
+
+end merge
+
 example : isvalidcdr3 Generated.aminoacids (.str "CASSLGQAYEQYF".toList) = .ok true := by
   rw [C18_isvalidcdr3_str]; exact congrArg Except.ok (by decide)
 example : isvalidcdr3 Generated.aminoacids (.str "CASSLGQAYEQYX".toList) = .ok false ∧
@@ -143,5 +191,16 @@ example :
         rows := [[some "casf".toList, some "x".toList], [none, some "y".toList]] }).rows =
       [[some "CASF".toList, some "x".toList], [none, some "y".toList]] := by decide
 
+/-- two tables sharing key 2: the outer join has keys 1, 2, 3; key 3 is missing in the first table -/
+example : (multimerge true (some ["a".toList, "b".toList])
+      [({ cols := ["v".toList], rows := [(1, [some 10]), (2, [some 20])] } : KTable Nat Nat),
+       { cols := ["v".toList], rows := [(2, [some 7]), (3, [some 8])] }]).rows =
+    [(1, [some 10, none]), (2, [some 20, some 7]), (3, [none, some 8])] := by decide
+example : (multimerge true (some ["a".toList, "b".toList])
+      [({ cols := ["v".toList], rows := [] } : KTable Nat Nat), { cols := ["v".toList, "w".toList], rows := [] }]).cols =
+    ["v_a".toList, "v_b".toList, "w_b".toList] := by decide
+example : (multimerge false none
+      [({ cols := ["v".toList], rows := [(1, [some 10]), (2, [some 20])] } : KTable Nat Nat),
+       { cols := ["w".toList], rows := [(2, [some 7]), (3, [some 8])] }]).rows = [(2, [some 20, some 7])] := by decide
 
 end Prs
